@@ -37,9 +37,10 @@ VARIABLES par,      \* [S -> 0..N] registered parent (0 = none)
           saved,    \* [S -> [cur, tg]] what to restore on exit
           grp,      \* [Tasks -> 0..N] group the task was spawned into
           alive,    \* [Tasks -> "unborn" | "run" | "done"]
+          wait,     \* [Tasks -> 0..N] the async scope whose body the task has left and whose spawned tasks it awaits
           now, nrec, nops, drained, obs
 
-vars == <<par, kids, phase, kind, done, born, doneAt, cbq, cblog, vals, cur, tg, stack, saved, grp, alive,
+vars == <<par, kids, phase, kind, done, born, doneAt, cbq, cblog, vals, cur, tg, stack, saved, grp, alive, wait,
           now, nrec, nops, drained, obs>>
 
 NoVals == [m \in MTypes |-> <<>>]
@@ -54,10 +55,15 @@ Init == /\ par = [s \in S |-> 0] /\ kids = [s \in S |-> <<>>]
         /\ saved = [s \in S |-> [cur |-> 0, tg |-> 0]]
         /\ grp = [t \in Tasks |-> 0]
         /\ alive = [t \in Tasks |-> IF t = 1 THEN "run" ELSE "unborn"]
+        /\ wait = [t \in Tasks |-> 0]
         /\ now = 0 /\ nrec = 0 /\ nops = 0 /\ drained = FALSE
         /\ obs = [a |-> "init", cb |-> [s \in S |-> <<>>], res |-> "ok"]
 
-Op == nops < MaxOps /\ nops' = nops + 1 /\ ~drained /\ cbq = {}
+Members(s) == {u \in Tasks : grp[u] = s /\ alive[u] = "run"}
+(* at rest: no callback scheduled and no waiting task whose group has emptied *)
+Rest == cbq = {} /\ \A t \in Tasks : wait[t] # 0 => Members(wait[t]) # {}
+Op == nops < MaxOps /\ nops' = nops + 1 /\ ~drained /\ Rest
+Free(t) == alive[t] = "run" /\ wait[t] = 0
 
 RECURSIVE IsCompletedK(_, _, _)
 IsCompletedK(d, ks, s) == d[s] /\ \A k \in Range(ks[s]) : IsCompletedK(d, ks, k)
@@ -86,7 +92,7 @@ NextScope == CHOOSE s \in S : phase[s] = "new" /\ \A r \in S : phase[r] = "new" 
 
 (* ctx.scope(...) created and entered by task t; k = sync / async scope *)
 Open(t, k) ==
-  /\ Op /\ alive[t] = "run" /\ \E s \in S : phase[s] = "new"
+  /\ Op /\ Free(t) /\ \E s \in S : phase[s] = "new"
   /\ LET s == NextScope
          p == cur[t]
          reg == IF p # 0 /\ (Bug = "late_child" \/ ~done[p]) THEN p ELSE 0
@@ -99,28 +105,49 @@ Open(t, k) ==
         /\ cur' = [cur EXCEPT ![t] = s]
         /\ tg' = [tg EXCEPT ![t] = IF k = "a" THEN s ELSE @]
         /\ stack' = [stack EXCEPT ![t] = Append(@, s)]
-  /\ UNCHANGED <<done, doneAt, cbq, cblog, vals, grp, alive, now, nrec, drained>>
+  /\ UNCHANGED <<done, doneAt, cbq, cblog, vals, grp, alive, wait, now, nrec, drained>>
   /\ obs' = [a |-> "open", cb |-> cblog, res |-> "ok"]
 
-Members(s) == {u \in Tasks : grp[u] = s /\ alive[u] = "run"}
+(* the scope's metrics are exited: it is marked finished and the upward completion closure runs *)
+MetricsExit(s, a) ==
+  LET fin == [x \in S |-> phase[x] = "finished" \/ x = s]
+      cl == Closure(done, fin, s)
+  IN /\ phase' = [phase EXCEPT ![s] = "finished"]
+     /\ done' = [x \in S |-> done[x] \/ x \in Range(cl)]
+     /\ doneAt' = [x \in S |-> IF x \in Range(cl) THEN now - born[x] ELSE doneAt[x]]
+     /\ cbq' = cbq \cup (IF Bug = "no_parent_notify" THEN (IF cl = <<>> THEN {} ELSE {cl[1]}) ELSE Range(cl))
+     /\ obs' = [a |-> a, cb |-> cblog,
+                res |-> IF Bug = "late_child" /\ cl # <<>> /\ par[cl[Len(cl)]] # 0 /\ done[par[cl[Len(cl)]]]
+                          THEN "AssertionError" ELSE "ok"]
+(* ... and the task's context is restored *)
+Restore(t, s) ==
+  /\ cur' = [cur EXCEPT ![t] = saved[s].cur] /\ tg' = [tg EXCEPT ![t] = saved[s].tg]
+  /\ stack' = [stack EXCEPT ![t] = SubSeq(@, 1, Len(@) - 1)]
 
-(* task t leaves its innermost scope *)
+(* task t leaves the body of its innermost scope.  An async scope first awaits the tasks spawned into it: while any is
+   running the task waits (Finish, below, completes the exit); the scope is not finished - and cannot complete -
+   before that *)
 Close(t) ==
-  /\ Op /\ alive[t] = "run" /\ stack[t] # <<>>
-  /\ LET s == stack[t][Len(stack[t])]
-         fin == [x \in S |-> phase[x] = "finished" \/ x = s]
-         cl == Closure(done, fin, s)
-     IN /\ (kind[s] = "a" => Members(s) = {})
-        /\ phase' = [phase EXCEPT ![s] = "finished"]
-        /\ cur' = [cur EXCEPT ![t] = saved[s].cur] /\ tg' = [tg EXCEPT ![t] = saved[s].tg]
-        /\ stack' = [stack EXCEPT ![t] = SubSeq(@, 1, Len(@) - 1)]
-        /\ done' = [x \in S |-> done[x] \/ x \in Range(cl)]
-        /\ doneAt' = [x \in S |-> IF x \in Range(cl) THEN now - born[x] ELSE doneAt[x]]
-        /\ cbq' = cbq \cup (IF Bug = "no_parent_notify" THEN (IF cl = <<>> THEN {} ELSE {cl[1]}) ELSE Range(cl))
-        /\ obs' = [a |-> "close", cb |-> cblog,
-                   res |-> IF Bug = "late_child" /\ cl # <<>> /\ par[cl[Len(cl)]] # 0 /\ done[par[cl[Len(cl)]]]
-                             THEN "AssertionError" ELSE "ok"]
+  /\ Op /\ Free(t) /\ stack[t] # <<>>
+  /\ LET s == stack[t][Len(stack[t])] IN
+     IF kind[s] = "a" /\ Members(s) # {}
+       THEN /\ wait' = [wait EXCEPT ![t] = s]
+            /\ IF Bug = "metrics_before_group"
+                 THEN MetricsExit(s, "close")
+                 ELSE /\ obs' = [a |-> "close", cb |-> cblog, res |-> "ok"]
+                      /\ UNCHANGED <<phase, done, doneAt, cbq>>
+            /\ UNCHANGED <<cur, tg, stack>>
+       ELSE /\ MetricsExit(s, "close") /\ Restore(t, s) /\ wait' = wait
   /\ UNCHANGED <<par, kids, kind, born, cblog, vals, saved, grp, alive, now, nrec, drained>>
+
+(* internal: the last task spawned into the awaited scope has ended - the waiting task completes the exit *)
+Finish(t) ==
+  /\ wait[t] # 0 /\ Members(wait[t]) = {}
+  /\ LET s == wait[t] IN
+     /\ IF phase[s] = "finished" THEN UNCHANGED <<phase, done, doneAt, cbq, obs>> ELSE MetricsExit(s, obs.a)
+     /\ Restore(t, s)
+  /\ wait' = [wait EXCEPT ![t] = 0]
+  /\ UNCHANGED <<par, kids, kind, born, cblog, vals, saved, grp, alive, now, nrec, nops, drained>>
 
 (* internal: the event loop runs one scheduled completion callback; it observes the scope *)
 RunCb(s) ==
@@ -128,32 +155,32 @@ RunCb(s) ==
   /\ cblog' = [cblog EXCEPT ![s] = Append(@, [at |-> now, completed |-> IsCompleted(s), time |-> doneAt[s],
                                                own |-> vals[s], view |-> [m \in MTypes |-> ViewOf(vals, kids, m, s)]])]
   /\ obs' = [obs EXCEPT !.cb = cblog']
-  /\ UNCHANGED <<par, kids, phase, kind, done, born, doneAt, vals, cur, tg, stack, saved, grp, alive, now, nrec, nops, drained>>
+  /\ UNCHANGED <<par, kids, phase, kind, done, born, doneAt, vals, cur, tg, stack, saved, grp, alive, wait, now, nrec, nops, drained>>
 
 Start(t, u, how) ==
-  /\ Op /\ alive[t] = "run" /\ alive[u] = "unborn" /\ \A w \in Tasks : w < u => alive[w] # "unborn"
+  /\ Op /\ Free(t) /\ alive[u] = "unborn" /\ \A w \in Tasks : w < u => alive[w] # "unborn"
   \* spawning needs a current group that is still open (a plain task that outlived the async scope it inherited would
   \* hit a finished TaskGroup and get RuntimeError - observed, judged by none of the properties, outside this model)
   /\ (how = "spawn" => (tg[t] # 0 /\ phase[tg[t]] = "entered"))
   /\ alive' = [alive EXCEPT ![u] = "run"]
   /\ cur' = [cur EXCEPT ![u] = cur[t]] /\ tg' = [tg EXCEPT ![u] = tg[t]]
   /\ grp' = [grp EXCEPT ![u] = IF how = "spawn" THEN tg[t] ELSE 0]
-  /\ UNCHANGED <<par, kids, phase, kind, done, born, doneAt, cbq, cblog, vals, stack, saved, now, nrec, drained>>
+  /\ UNCHANGED <<par, kids, phase, kind, done, born, doneAt, cbq, cblog, vals, stack, saved, wait, now, nrec, drained>>
   /\ obs' = [a |-> "start", cb |-> cblog, res |-> "ok"]
 
 End(t) ==
-  /\ Op /\ alive[t] = "run" /\ stack[t] = <<>> /\ t # 1
+  /\ Op /\ Free(t) /\ stack[t] = <<>> /\ t # 1
   /\ alive' = [alive EXCEPT ![t] = "done"]
-  /\ UNCHANGED <<par, kids, phase, kind, done, born, doneAt, cbq, cblog, vals, cur, tg, stack, saved, grp, now, nrec, drained>>
+  /\ UNCHANGED <<par, kids, phase, kind, done, born, doneAt, cbq, cblog, vals, cur, tg, stack, saved, grp, wait, now, nrec, drained>>
   /\ obs' = [a |-> "end", cb |-> cblog, res |-> "ok"]
 
 Tick == /\ Op /\ now < MaxT /\ now' = now + 1
-        /\ UNCHANGED <<par, kids, phase, kind, done, born, doneAt, cbq, cblog, vals, cur, tg, stack, saved, grp, alive, nrec, drained>>
+        /\ UNCHANGED <<par, kids, phase, kind, done, born, doneAt, cbq, cblog, vals, cur, tg, stack, saved, grp, alive, wait, nrec, drained>>
         /\ obs' = [a |-> "tick", cb |-> cblog, res |-> "ok"]
 
 (* ctx.record(metric of type m) by task t: lands in cur[t] only; never raises *)
 Record(t, m) ==
-  /\ Op /\ alive[t] = "run" /\ nrec < MaxRec /\ nrec' = nrec + 1
+  /\ Op /\ Free(t) /\ nrec < MaxRec /\ nrec' = nrec + 1
   /\ LET s == IF Bug = "record_parent" /\ cur[t] # 0 /\ par[cur[t]] # 0 THEN par[cur[t]] ELSE cur[t]
          x == nrec + 1 IN
      IF s = 0 \/ done[s]          \* outside any scope / completed scope: dropped, reported through the log only
@@ -165,7 +192,7 @@ Record(t, m) ==
                               [] m = "Sum" -> <<old[1] + x>>
                               [] m = "Boom" -> old            \* merge function raises: record dropped
                               [] OTHER -> <<x>>]
-  /\ UNCHANGED <<par, kids, phase, kind, done, born, doneAt, cbq, cblog, cur, tg, stack, saved, grp, alive, now, drained>>
+  /\ UNCHANGED <<par, kids, phase, kind, done, born, doneAt, cbq, cblog, cur, tg, stack, saved, grp, alive, wait, now, drained>>
   /\ obs' = [a |-> "record", cb |-> cblog, res |-> "ok"]
 
 (* epilogue from every state: every task unwinds (innermost scopes first), the loop runs, and every
@@ -187,7 +214,7 @@ Rev(q) == [i \in 1..Len(q) |-> q[Len(q) + 1 - i]]
 LeaveOrder(t) == IF t = 0 THEN <<>> ELSE Rev(stack[t]) \o LeaveOrder(t - 1)
 
 Drain ==
-  /\ ~drained /\ cbq = {} /\ drained' = TRUE
+  /\ ~drained /\ Rest /\ drained' = TRUE
   /\ LET fin == [x \in S |-> phase[x] = "finished"]
          u == Unwind(done, fin, LeaveOrder(NTasks))
          called == {s \in S : cblog[s] # <<>>} \cup u.cbs
@@ -200,14 +227,14 @@ Drain ==
                                               view |-> [m \in MTypes |-> ViewOf(vals, kids, m, s)]]>>
                                       ELSE <<>>],
                 res |-> IF \A s \in S : phase[s] = "new" \/ u.d[s] THEN "ok" ELSE "incomplete"]
-  /\ UNCHANGED <<par, kids, phase, kind, done, born, doneAt, cbq, cblog, vals, cur, tg, stack, saved, grp, alive,
+  /\ UNCHANGED <<par, kids, phase, kind, done, born, doneAt, cbq, cblog, vals, cur, tg, stack, saved, grp, alive, wait,
                  now, nrec, nops>>
 
 Controlled == \/ \E t \in Tasks : (\E k \in Kinds : Open(t, k)) \/ Close(t) \/ End(t)
                                   \/ (\E u \in Tasks, how \in {"spawn", "plain"} : Start(t, u, how))
                                   \/ (\E m \in MTypes : Record(t, m))
               \/ Tick \/ Drain
-Internal == \E s \in S : RunCb(s)
+Internal == (\E s \in S : RunCb(s)) \/ (\E t \in Tasks : Finish(t))
 Next == Internal \/ Controlled
 Spec == Init /\ [][Next]_vars /\ WF_vars(Internal)
 
@@ -222,6 +249,8 @@ TypeOK == /\ \A s \in S : phase[s] \in {"new", "entered", "finished"}
 CbAtMostOnce == \A s \in S : Len(cblog[s]) <= 1
 (* ... only after the scope and every scope nested under it have been left *)
 CbAfterSubtree == \A s \in S : done[s] => (phase[s] = "finished" /\ \A k \in Desc(s) : phase[k] = "finished" /\ done[k])
+(* ... including every task spawned into it (those tasks may still open scopes under it) *)
+CbAfterMembers == \A s \in S : done[s] => Members(s) = {}
 CbSeesCompleted == \A s \in S : \A i \in DOMAIN cblog[s] : cblog[s][i].completed
 (* C09: leaving a scope never fails because of completion bookkeeping *)
 ExitNeverFails == obs.res # "AssertionError"
@@ -230,7 +259,7 @@ CompletedStable == [][\A s \in S : IsCompletedK(done, kids, s) => (IsCompletedK(
 (* C09: and always eventually once they have *)
 SubtreeLeft(s) == phase[s] = "finished" /\ \A k \in Desc(s) : phase[k] = "finished"
 EventuallyCalled == \A s \in S : SubtreeLeft(s) ~> (Len(cblog[s]) = 1)
-CompletionIffSubtreeLeft == \A s \in S : (SubtreeLeft(s) /\ cbq = {}) => (done[s] /\ Len(cblog[s]) = 1)
+CompletionIffSubtreeLeft == \A s \in S : (SubtreeLeft(s) /\ Rest) => (done[s] /\ Len(cblog[s]) = 1)
 
 (* C10: a record changes the value of exactly one scope - the recording task's innermost one *)
 Attribution == [][nrec' = nrec + 1 =>
